@@ -295,12 +295,12 @@ def oracle(ctx, ss, np, rng):
         except Exception:
             pass
     # durations and rates handed to a module through a distribution: what the module receives, times its own step, is the original quantity
-    for (u_, pu_, pdt_) in (('day', 'week', 1.0), ('year', 'day', 1.0), ('week', 'day', 3.0), ('day', 'year', 0.1), ('year', 'year', 0.25)):
-        for kind, v in (('dur', 10), ('dur', 2.5), ('rate', 3), ('rate', 0.7)):
+    for (u_, pu_, pdt_) in (('day', 'week', 1.0), ('year', 'day', 1.0), ('week', 'day', 3.0), ('day', 'year', 0.1), ('year', 'year', 0.25), ('year', 'year', 1.0), ('day', 'day', 1.0), ('week', 'week', 1.0)):
+        for kind, v in (('dur', 10), ('dur', 2.5), ('rate', 3), ('rate', 0.7), ('rate_prob', 0.7), ('rate_prob', 3.0), ('time_prob', 0.3), ('time_prob', 0.95)):
             n += 1; ctx.dist('oracle:timepar inside a distribution')
             W = dict(kind=kind, v=v, unit=u_, parent_unit=pu_, parent_dt=pdt_, probe='dist-wrapped')
             try:
-                K = ss.dur if kind == 'dur' else ss.rate
+                K = dict(dur=ss.dur, rate=ss.rate, rate_prob=ss.rate_prob, time_prob=ss.time_prob)[kind]
                 ref = K(v, unit=u_, parent_unit=pu_, parent_dt=pdt_).init(); want = float(np.atleast_1d(np.asarray(ref.values, dtype=float))[0])
                 d = ss.constant(v=K(v, unit=u_, parent_unit=pu_, parent_dt=pdt_).init(), strict=False); d.init()
                 got = float(np.asarray(d.rvs(3), dtype=float)[0])
@@ -308,6 +308,16 @@ def oracle(ctx, ss, np, rng):
                 ctx.dist('oracle:timepar inside a distribution rejected'); continue
             if not close(got, want, 1e-9):
                 ctx.violation(f'ss.constant(v=ss.{kind}({v!r}, {u_!r})) in a parent with unit {pu_} and dt {pdt_} yields {got} per-step units; the parameter alone converts to {want}', W)
+            # two time parameters in one distribution (degenerate uniform: low = high): both are converted, once
+            if kind in ('dur', 'rate'):
+                try:
+                    d2 = ss.uniform(low=K(v, unit=u_, parent_unit=pu_, parent_dt=pdt_).init(), high=K(v, unit=u_, parent_unit=pu_, parent_dt=pdt_).init(), strict=False); d2.init()
+                    got2 = float(np.asarray(d2.rvs(3), dtype=float)[0])
+                except Exception as E:
+                    ctx.dist('oracle:two timepars inside a distribution rejected'); continue
+                n += 1; ctx.dist('oracle:two timepars inside a distribution')
+                if abs(got2 - want) > 1e-5 * max(1.0, abs(want)):      # the variates pass through float32
+                    ctx.violation(f'ss.uniform(low=ss.{kind}({v!r}, {u_!r}), high=the same) in a parent with unit {pu_} and dt {pdt_} yields {got2} per-step units; the parameter alone converts to {want}', dict(W, probe='dist-wrapped-two'))
     # a plain number given to an ALREADY INITIALISED time parameter of a module (pars.update after sim.init): the per-step value follows the new number
     for simkw in (dict(unit='year', dt=0.5), dict(unit='day', dt=2.0, start='2000-01-01'), dict(unit='week', dt=1.0, start='2000-01-01')):
         try:
